@@ -41,6 +41,11 @@ def parse_snapshot(tokens):
     assert vals[i] == "output"
     out["output"] = None if vals[i + 1] == "none" else vals[i + 1]
     i += 2
+    out["armed"] = []
+    if vals[i] == "armed":
+        i += 1
+        while vals[i] != "log":
+            out["armed"].append(vals[i]); i += 1
     assert vals[i] == "log"
     i += 1
     log = []
@@ -57,7 +62,9 @@ def parse_snapshot(tokens):
         k = vals[i]
         if k == "act":
             log.append(("act", vals[i + 1], vals[i + 2], vals[i + 3])); i += 4
-        elif k in ("acterr", "sched", "cancel", "cut", "err", "can", "enter", "leave"):
+        elif k == "fail":
+            log.append(("fail",)); i += 1
+        elif k in ("acterr", "sched", "cancel", "cut", "err", "can", "enter", "leave", "clock"):
             log.append((k, vals[i + 1])); i += 2
         elif k == "trans":
             l, j = read_list(i + 2)
@@ -230,6 +237,8 @@ def replay_macro(payload, monitor=None):
     def _ev(e):
         if e[0] == "burst":
             return ("burst", [_ev(x) for x in e[1]])
+        if e[0] == "at":
+            return ("at", e[1], [_ev(x) for x in e[2]])
         return (e[0], e[1] if isinstance(e[1], str) else tuple(e[1]), e[2])
     events = [_ev(e) for e in case["events"]]
     cx = {int(k): v for k, v in (case.get("ctx") or {}).items()}
